@@ -117,6 +117,18 @@ def run(facts, rep, tier, ctx):
         if d3.startswith("remove_dir_all") or "is answered because of the filesystem's state" in d3:
             n += 1
             rep.ob("R18.1", ob_["fn"], d3, ob_["ok"], ob_["detail"], ob_["loc"])
+    # ... and the composite moves do not turn the backend's refusal into success: the only error kind they swallow is the
+    # NotSupported of an absent fast path (C20's escape table on the path layer, shared with C11 R11.2e)
+    from . import c20 as _c20
+    scr4 = _R("c4")
+    _c20.run_world(facts, scr4, _W(facts, False), {"results": 0, "err_edges": 0, "kind_arms": 0})
+    for ob_ in scr4.obligations:
+        if ob_["rule"] in ("R20.2", "R20.4") and ob_["fn"].startswith("path::VfsPath"):
+            n += 1
+            rep.ob("R18.1e", ob_["fn"], ob_["key"].split("|")[2], ob_["ok"], ob_["detail"], ob_["loc"])
+    # walks equal those of a physical filesystem on the same folder: the walk descends into every directory it is given
+    from . import c05 as _c05w
+    _c05w.walk_rules(facts, _c05w._P5(rep, "R18.6w"), _W(facts, False), D)
     rep.floor("mutator obligations", n, 11)
     # ---- R18.2
     adt = facts.adts.get("impls::embedded::EmbeddedFS")
